@@ -264,6 +264,7 @@ func runC14(l *core.Ledger) {
 	l.Rule("C14-G8", "NodeIDs, Nodes, Size, Equal read nothing but their operands")
 	l.Rule("C14-G9", "pooled identity: nodes reach a result only from mgr.Node (found), a constructor result after AddNode returned nil, or an operand; who-may-construct RawNode = constructors; who-may-insert = AddNode")
 
+	l.Rule("C14-G11", "no constructor sorts through state shared between calls: package-level variables of the runtime are not modified after initialisation (C15 rule on globals, re-run)")
 	l.Rule("C14-G10", "a node carries its whole resolved address: every value stored in RawNode.addr depends on (*net.TCPAddr).String() of the resolved address, on the caller's address text itself, or on all of the resolved address's components (IP, Port, Zone) - an address rebuilt from some of its parts maps distinct addresses to one")
 
 	ctors := findCtors(l, r)
@@ -279,6 +280,21 @@ func runC14(l *core.Ledger) {
 	c14G8(l, r)
 	c14G9who(l, r)
 	c14G10(l, r)
+	// G11: the sorter the constructors use keeps the slice it sorts (MultiSorter.nodes): a sorter shared
+	// through a package-level variable is written by every constructor call (C15's rule on globals, re-run
+	// - a configuration built while another goroutine sorts comes back unsorted or with a node twice)
+	{
+		states := map[*ssa.Function]*sx.LockState{}
+		lockState := func(f *ssa.Function) *sx.LockState {
+			if st, ok := states[f]; ok {
+				return st
+			}
+			st := sx.AnalyzeLocks(f)
+			states[f] = st
+			return st
+		}
+		l.With(map[string]string{"C15-L1": "C14-G11"}, func() { c15Globals(l, r, goRoots(l, r), lockState) })
+	}
 }
 
 func c14Ctor(l *core.Ledger, r *rt, c *cfgCtor) {
